@@ -61,9 +61,11 @@ ASSUMPTIONS = [
 BUDGET_S = {"quick": 75.0, "thorough": 1100.0}
 SHRINK_MAX_EXAMPLES = 4000
 
-K_WILDCARD = "wildcard-alias-born-resolved"
+K_WILDCARD = "alias-born-resolved"
+K_SINGLEPASS = "wildcard-expansion-single-pass"
+K_LEAK = "wildcard-placeholder-leaks"
 
-CALL_BUDGET_S = 4.0  # per Griffe call; cases normally take a few milliseconds
+CALL_BUDGET_S = 1.5  # CPU seconds per loader operation; cases normally take a few milliseconds
 CONFIRM_SCALE = 100
 
 
@@ -77,13 +79,16 @@ def _on_alarm(signum, frame):  # noqa: ARG001
 
 @contextmanager
 def time_limit(seconds: float):
-    old = signal.signal(signal.SIGALRM, _on_alarm)
-    signal.setitimer(signal.ITIMER_REAL, seconds)
+    """Abort the enclosed Griffe calls after `seconds` of CPU time of this process (robust against a busy machine; a
+    hang in pure Python burns CPU).  The timer repeats: a CaseTimeout raised inside a callback that swallows
+    exceptions (e.g. a gc callback) is simply raised again a little later."""
+    old = signal.signal(signal.SIGVTALRM, _on_alarm)
+    signal.setitimer(signal.ITIMER_VIRTUAL, seconds, 0.25)
     try:
         yield
     finally:
-        signal.setitimer(signal.ITIMER_REAL, 0)
-        signal.signal(signal.SIGALRM, old)
+        signal.setitimer(signal.ITIMER_VIRTUAL, 0)
+        signal.signal(signal.SIGVTALRM, old)
 
 
 # ----------------------------------------------------------------------------- scratch space
@@ -295,17 +300,37 @@ class Session:
             snap1, mods1 = self.snapshot()
             unresolved2, _it2 = call("total", loader.resolve_aliases, implicit=implicit, external=external, what="second " + what)
             snap2, mods2 = self.snapshot()
+            # wildcard imports that the first call left in place (placeholder member 'pkg/mod/*' whose target is the
+            # source module) and that the second call expanded: the placeholder is gone or has been replaced;
+            # or whose source package was only loaded by the second call
+            newly = sorted(set(mods2) - set(mods1))
+            late = sorted(
+                k for k, st1 in snap1.items()
+                if k.endswith("/*") and "/*" not in st1[1] and (snap2.get(k) != st1 or st1[1].split(".")[0] in newly)
+            )
+            detail = {"wildcards_expanded_by_second_call": late, "newly_loaded": newly}
             if unresolved1 != unresolved2:
                 fails.append(
-                    Fail("fixpoint", "unresolved-set-differs", f"{what}: first call left {sorted(unresolved1)}, an immediate second call left {sorted(unresolved2)}",
-                         {"newly_loaded": sorted(set(mods2) - set(mods1))})
+                    Fail("fixpoint", "unresolved-set-differs" + (":late-wildcard-expansion" if late else ""),
+                         f"{what}: first call left {sorted(unresolved1)}, an immediate second call left {sorted(unresolved2)}", detail)
                 )
             elif mods1 != mods2:
-                fails.append(Fail("fixpoint", "loads-more-modules", f"second {what} loaded {sorted(set(mods2) - set(mods1))}"))
+                fails.append(
+                    Fail("fixpoint", "loads-more-modules" + (":late-wildcard-expansion" if late else ""),
+                         f"second {what} loaded {sorted(set(mods2) - set(mods1))}" + (f"; wildcard imports expanded only by the second call: {late}" if late else ""), detail)
+                )
             elif snap1 != snap2:
                 diff = sorted(k for k in set(snap1) | set(snap2) if snap1.get(k) != snap2.get(k))
                 k = diff[0]
-                fails.append(Fail("fixpoint", "alias-state-changes", f"second {what} changed {len(diff)} alias(es), e.g. {k}: {snap1.get(k)} -> {snap2.get(k)}"))
+                detail["changed"] = diff[:20]
+                # copies of wildcard placeholders: members named '.../*' whose target is itself a placeholder member
+                leaked = [x for x in diff if x.endswith("/*") and any("/*" in s[1] for s in (snap1.get(x), snap2.get(x)) if s)]
+                detail["leaked_placeholders"] = leaked[:20]
+                fails.append(
+                    Fail("fixpoint", "alias-state-changes" + (":late-wildcard-expansion" if late else ":leaked-placeholder" if leaked else ""),
+                         f"second {what} changed {len(diff)} alias(es), e.g. {k}: {snap1.get(k)} -> {snap2.get(k)}"
+                         + (f"; wildcard imports expanded only by the second call: {late}" if late else ""), detail)
+                )
             if unresolved1:
                 self.classes["obs:unresolved-after-resolve"] += 1
             return fails
@@ -332,7 +357,7 @@ def _confirm_hang(case, step_text: str) -> list[Fail]:
     try:
         p = subprocess.run(
             [sys.executable, str(bootstrap.VERIF / "vp" / "run.py"), ID, "--replay", str(path)],
-            capture_output=True, text=True, env=env, timeout=CALL_BUDGET_S * CONFIRM_SCALE * (len(case["steps"]) + 1) + 60, check=False,
+            capture_output=True, text=True, env=env, timeout=CALL_BUDGET_S * CONFIRM_SCALE * 6 + 120, check=False,
         )
         hang = p.returncode == 1 and "terminates/" in p.stdout
     except subprocess.TimeoutExpired:
@@ -340,8 +365,23 @@ def _confirm_hang(case, step_text: str) -> list[Fail]:
     finally:
         path.unlink(missing_ok=True)
     if hang:
-        return [Fail("terminates", "hang", f"step {step_text} did not finish within {CALL_BUDGET_S} s, nor within {CONFIRM_SCALE}x that when replayed alone in a fresh process")]
+        return [Fail("terminates", "hang", f"step {step_text} did not finish within {CALL_BUDGET_S} s of CPU time, nor within {CONFIRM_SCALE}x that when replayed alone in a fresh process")]
     return []
+
+
+_CONFIRMED = [0]
+
+
+def _after_timeout(session, case) -> list[Fail]:
+    """A step was aborted by the timer: never a verdict by itself.  The first such case of a process goes through the
+    replay-alone protocol (it costs up to CONFIRM_SCALE x the budget); later ones are only counted."""
+    if _CONFIRMED[0] >= 1:
+        session.classes["inconclusive-timeout:unconfirmed"] += 1
+        return []
+    _CONFIRMED[0] += 1
+    fails = _confirm_hang(case, session.timed_out)
+    session.classes["inconclusive-timeout" if not fails else "timeout:confirmed-hang"] += 1
+    return fails
 
 
 def check_case(case) -> list[Fail]:
@@ -356,8 +396,13 @@ def check_case(case) -> list[Fail]:
     finally:
         session.close()
     if session.timed_out and not confirm:
-        session.classes["inconclusive-timeout"] += 1
-        fails = _confirm_hang(case, session.timed_out)
+        fails = _after_timeout(session, case)
+    if case.get("steered"):
+        # generated with wildcard imports only from import-free modules: nothing wildcard-related may be attributed
+        # to a known finding here (the KNOWN predicates match the exact kind)
+        for f in fails:
+            if f.clause == "fixpoint" or f.kind == "partial:wildcard-expansion":
+                f.kind += ":in-steered-case"
     _LAST["session"] = session
     _LAST["case"] = case
     return fails
@@ -366,6 +411,8 @@ def check_case(case) -> list[Fail]:
 def _describe_session(session, case):
     nontrivial, classes = c06_graph.analyse(case)
     classes = {"graph:" + c for c in classes}
+    if case.get("steered"):
+        classes.add("graph:steered(wildcards-only-from-import-free-modules)")
     classes |= set(session.classes)
     loaded = bool(session.loaded)
     key = case if (nontrivial and loaded) else None
@@ -393,7 +440,23 @@ def _is_wildcard_born(case, fail: Fail) -> bool:
     return fail.clause == "all-or-nothing" and d.get("origin") in ("wildcard-expansion", "alias-member") and fail.kind == "partial:" + d["origin"]
 
 
-KNOWN = {K_WILDCARD: _is_wildcard_born}
+def _is_late_expansion(case, fail: Fail) -> bool:
+    """fixpoint fails and the second resolve_aliases call expanded a wildcard import that the first call had left
+    in place (its source only became reachable through what the first call expanded or resolved): wildcard expansion
+    is one pass at the start of resolve_aliases, not part of the iteration."""
+    d = fail.detail or {}
+    return fail.clause == "fixpoint" and fail.kind.endswith(":late-wildcard-expansion") and bool(d.get("wildcards_expanded_by_second_call"))
+
+
+def _is_placeholder_leak(case, fail: Fail) -> bool:
+    """fixpoint fails (same unresolved set, same modules) and among the aliases whose state changed there is a copy of
+    a wildcard placeholder: a member named '.../*' whose target path is itself a placeholder member ('pkg.mod.x/y/*')."""
+    d = fail.detail or {}
+    return fail.clause == "fixpoint" and fail.kind == "alias-state-changes:leaked-placeholder" and bool(d.get("leaked_placeholders"))
+
+
+KNOWN = {K_WILDCARD: _is_wildcard_born, K_SINGLEPASS: _is_late_expansion, K_LEAK: _is_placeholder_leak}
+STEERING = (K_WILDCARD, K_SINGLEPASS, K_LEAK)
 
 
 # ----------------------------------------------------------------------------- strategies
@@ -419,7 +482,7 @@ def _steps(pkg_names):
 def case_strategy(steered: bool):
     def with_steps(model):
         names = [p["name"] for p in model["pkgs"]]
-        return _steps(names).map(lambda steps: {"pkgs": model["pkgs"], "steps": steps})
+        return _steps(names).map(lambda steps: {"pkgs": model["pkgs"], "steps": steps, **({"steered": True} if steered else {})})
 
     return c06_graph.graphs(steered=steered).flatmap(with_steps)
 
@@ -428,7 +491,7 @@ def strategy(ctx):
     # While the wildcard finding is listed, half of the cases are generated with wildcard imports only from modules
     # that contain no imports (no born-resolved alias can point at an unresolved one: the all-or-nothing clause is then
     # checked without any attribution); the other half keeps cyclic / chained wildcards for the remaining clauses.
-    if K_WILDCARD in ctx.known:
+    if any(k in ctx.known for k in STEERING):
         return st.one_of(case_strategy(True), case_strategy(False)), "graphs"
     return case_strategy(False), "graphs"
 
@@ -441,7 +504,7 @@ def _run_machine(ctx, n_examples: int) -> None:
 
     from vp.common.harness import derive_seed
 
-    steered = K_WILDCARD in ctx.known
+    steered = any(k in ctx.known for k in STEERING)
 
     class LoaderHistory(RuleBasedStateMachine):
         def __init__(self):
@@ -489,8 +552,7 @@ def _run_machine(ctx, n_examples: int) -> None:
             case = {"pkgs": self.model["pkgs"], "steps": self.steps}
             fails = self.fails
             if self.session.timed_out:
-                self.session.classes["inconclusive-timeout"] += 1
-                fails = _confirm_hang(case, self.session.timed_out)
+                fails = _after_timeout(self.session, case)
             if not self.steps:
                 return
             key, classes, sample = _describe_session(self.session, case)
@@ -516,6 +578,14 @@ def run_shard(ctx) -> None:
     global _TMP  # noqa: PLW0603
     _TMP = ctx.tmp
     strat, salt = strategy(ctx)
-    ctx.run_hypothesis(strat, check_case, ctx.scale(1000, 30000), describe=_describe, salt=salt)
+
+    def counted(case):
+        if case.get("steered"):
+            for slug in STEERING:
+                if slug in ctx.known:
+                    ctx.excluded(slug)
+        return check_case(case)
+
+    ctx.run_hypothesis(strat, counted, ctx.scale(1000, 30000), describe=_describe, salt=salt)
     if not ctx.out_of_budget():
         _run_machine(ctx, ctx.scale(60, 1500))
